@@ -133,7 +133,7 @@ CLAIMED = {
                 note="domain is finite (boundary bytes / positions); zero padding of slices is an invariant checked in the structural traces",
                 tech="TLA+ model checking (TLC) + TLC trace validation of replayed comparison sites and API traces"),
     "C19": dict(cat="model_checking", ref="DESIGN.md 3.2, 6 (C19)",
-                text="TLC explores all reachable orderings of YkPerm for F=6 (8 in thorough) and judges a replay of the real 64-bit permutation word (every count, rank, "
+                text="TLC explores all reachable orderings of YkPerm for F=6 (8 in thorough), Apalache shows the same invariant inductive at F=15 (YkPermA), and TLC judges a replay of the real 64-bit permutation word (every count, rank, "
                      "free slot on an ordering family + random walks) against the sequence operators; exactly one word store per update. Reader side of the last "
                      "sentence: lookups of a leaf's keys (incl. the greatest, last rank) racing with removes / inserts in the same leaf under the scheduler, every single "
                      "preemption, judged by the linearization search (TraceLin); heap values and inline (std::uintptr_t) values.",
